@@ -239,7 +239,8 @@ func (ssm *serverSessionMedia) readPacketRTCPPlay(payload []byte) bool {
 		if rr, ok := pkt.(*rtcp.ReceiverReport); ok {
 			for _, report := range rr.Reports {
 				format := ssm.findFormatByLocalSSRC(report.SSRC)
-				if format != nil {
+				// formats of back channels have a receiver, not a sender
+				if format != nil && format.rtpSender != nil {
 					format.rtpSender.ProcessReceptionReport(&report)
 				}
 			}
